@@ -29,14 +29,16 @@ static const char *const fault_names[] = { "ring_overflow_char_dropped", "irq_in
 enum { P_PATH_PROCESS, P_PATH_EVAL, P_PATH_PUTCHAR_IRQ, P_PATH_PUTCHAR_THR, P_FOUR_ARGS, P_MORE_THAN_FOUR,
        P_QUOTED, P_LINE_79, P_EVAL_LONGER_THAN_RING, P_EVAL_MULTI_LINE, P_YIELDING_CMD, P_SLEEPING_CMD,
        P_INPUT_WHILE_CMD_RUNS, P_REGISTER_REFUSED, P_UNKNOWN_LINE, P_EMPTY_LINE, P_ARGS_JUDGED,
-       P_LEADING_SPACE_LINE, P_FAILING_CMD, P_BUILTIN, P_CMD_DIRTIED_SCRATCH };
+       P_LEADING_SPACE_LINE, P_FAILING_CMD, P_BUILTIN, P_CMD_DIRTIED_SCRATCH,
+       P_FINALE_QUEUE_EXACTLY_FULL };
 static const char *const probe_names[] = {
 	"path_console_process", "path_console_eval", "path_putchar_irq", "path_putchar_thread",
 	"line_with_exactly_four_arguments", "tokeniser_stopped_at_four_arguments", "quoted_argument",
 	"line_hit_79_characters", "eval_string_longer_than_ring", "eval_multi_line", "yielding_command_ran",
 	"sleeping_command_ran", "input_arrived_while_command_running", "registration_refused_table_full",
 	"unknown_command_line", "empty_line", "arguments_judged", "line_with_leading_space_or_quote",
-	"failing_command_ran", "builtin_command_line", "command_stored_state_in_scratch", NULL };
+	"failing_command_ran", "builtin_command_line", "command_stored_state_in_scratch",
+	"last_newline_followed_by_exactly_full_wakeup_queue", NULL };
 
 /* ---- commands ---------------------------------------------------------------- */
 
@@ -703,9 +705,39 @@ static bool ring_full_producer_side(void)
 	return (w + 1) % con->ring.buf_len == r;
 }
 
-static void feed_one(void)
+/*
+ * The environment keeps within the system's sizing assumption: it never overflows the 8-deep
+ * wake-up queue (console_putchar cannot report a refused wake-up; overflow is the library's
+ * "tainted" error state and belongs to C06).  It does fill the queue exactly.  Occupancy is
+ * followed without naming any symbol: accepted requests minus the main loop's RMW operations
+ * on the address that a request's first RMW (the free-counter decrement) targets.
+ */
+static uintptr_t wq_counter_addr;
+static uint32_t wq_accepted, wq_main_claims;
+static int mainloop_ctx_id;
+
+static uint32_t wq_occupancy(void)
 {
+	if (!wq_counter_addr)
+		return wq_accepted;	/* not learnt yet: nothing was released as far as we know */
+	/* the main loop's own claims (characters delivered from the main context) hit the same
+	 * counter from the same context: they are not releases */
+	uint32_t released = simrt_watch_count(mainloop_ctx_id, 0) - wq_main_claims;
+	return released >= wq_accepted ? 0 : wq_accepted - released;
+}
+
+static bool feed_one(void)
+{
+	if (wq_occupancy() >= 8) {
+		if (mode != M_THR)
+			return false;	/* an interrupt handler cannot wait: deliver later */
+		while (wq_occupancy() >= 8)
+			simrt_spin_hint();
+	}
 	char ch = stream[feed_pos++];
+	wq_accepted++;
+	if (wq_counter_addr && simrt_self() == mainloop_ctx_id && simrt_irq_depth() == 0)
+		wq_main_claims++;
 	if (mode == M_THR) {
 		/* a thread waits for room, so nothing is dropped */
 		while (ring_full_producer_side())
@@ -718,23 +750,87 @@ static void feed_one(void)
 	}
 	if (cmd_running)
 		sim_probe(P_INPUT_WHILE_CMD_RUNS);
+	if (!wq_counter_addr)
+		simrt_mark_rmw();
 	console_putchar(con, ch);
+	/* ringbuf_put has no RMW: the first one is the wake-up queue's free-counter decrement */
+	if (!wq_counter_addr && (wq_counter_addr = simrt_first_rmw()))
+		simrt_watch_addr(wq_counter_addr);
 	sim_ops(1);
+	return true;
+}
+
+/* other interrupt sources share the 8-deep wake-up queue with the console (a timer tick, say) */
+static fibre_t *ticker[2];
+static uint32_t ticker_runs;
+static bool finale_done, want_finale;
+
+static int ticker_fibre(fibre_t *f)
+{
+	PT_BEGIN_FIBRE(f);
+	for (;;) {
+		ticker_runs++;
+		PT_WAIT();
+	}
+	PT_END();
+}
+
+static void tick_burst(void)
+{
+	uint32_t n = sim_choose(3) == 0 ? 5 + sim_choose(5) : sim_choose(3);
+	for (uint32_t i = 0; i < n; i++) {
+		if (wq_occupancy() >= 8)
+			return;
+		if (!wq_counter_addr)
+			simrt_mark_rmw();
+		bool ok = fibre_run_atomic(ticker[sim_choose(2)]);
+		if (ok)
+			wq_accepted++;
+		if (!wq_counter_addr && (wq_counter_addr = simrt_first_rmw()))
+			simrt_watch_addr(wq_counter_addr);
+	}
 }
 
 static void irq_handler(int depth)
 {
 	(void)depth;
 	sim_fault(F_IRQ);
+	if (sim_choose(2))
+		tick_burst();
 	uint32_t n = 1 + sim_choose(sim_choose(4) ? 3 : 20);
-	for (uint32_t i = 0; i < n && feed_pos < stream_len; i++)
-		feed_one();
+	bool final_alone = false;
+	for (uint32_t i = 0; i < n && feed_pos < stream_len; i++) {
+		if (feed_pos == stream_len - 1 && want_finale) {
+			/* hold the last newline back until the wake-up queue is empty, so that its
+			 * request will be the only one that names the console */
+			if (wq_occupancy() != 0 || i != 0)
+				break;
+			final_alone = true;
+		}
+		if (!feed_one())
+			break;
+	}
+	if (final_alone && feed_pos >= stream_len && !finale_done) {
+		/* the last newline is in: other interrupt sources fill the wake-up queue exactly and
+		 * keep firing while the main loop drains it (the console's request is the only one
+		 * that names the console) */
+		finale_done = true;
+		while (wq_occupancy() < 8)
+			if (fibre_run_atomic(ticker[sim_choose(2)]))
+				wq_accepted++;
+			else
+				break;
+		simrt_irq_densify(1 + sim_choose(6));
+		sim_probe(P_FINALE_QUEUE_EXACTLY_FULL);
+	}
 }
 
 static void feeder_ctx(void *arg)
 {
 	(void)arg;
 	while (feed_pos < stream_len) {
+		if (sim_chance(1, 6))
+			tick_burst();
 		feed_one();
 		simrt_point();
 	}
@@ -743,7 +839,9 @@ static void feeder_ctx(void *arg)
 
 static void main_loop(void)
 {
-	for (int it = 0; it < 6000; it++) {
+	mainloop_ctx_id = simrt_self();
+	/* a thread-mode main loop keeps going for as long as the feeder has characters left */
+	for (int it = 0; it < 6000 || (mode == M_THR && !feeder_done && it < 60000); it++) {
 		uint32_t sw0 = simrt_switches();
 		uint32_t wake = fibre_scheduler_next(now);
 		simrt_point();
@@ -783,13 +881,25 @@ static void run(void)
 	use_fibre_timeout = true;
 	feed_pos = 0;
 	feeder_done = false;
-	sim_budget(30000000);
+	sim_budget(60000000);
 	setup_commands();
 	con = sim_alloc_guarded(sizeof(console_t), 64, 0xa9);
 	simrt_region_add(con, sizeof(console_t), SIMRT_SHARED, "console");
 	simrt_region_add(cmds, sizeof(cmds), SIMRT_PRIVATE, "command-descriptors");
 	simrt_bounds(true);
+	simrt_libdata_points(mode == M_IRQ);	/* interrupts can land between any two library accesses to its own data */
 	console_init(con, sim_sink_open());
+	for (int i = 0; i < 2; i++) {
+		ticker[i] = sim_alloc_guarded(sizeof(fibre_t), 16, 0x5e);
+		simrt_region_add(ticker[i], sizeof(fibre_t), SIMRT_PRIVATE, "ticker-fibre");
+		fibre_init(ticker[i], ticker_fibre);
+	}
+	ticker_runs = 0;
+	finale_done = false;
+	want_finale = false;
+	wq_counter_addr = 0;
+	wq_accepted = wq_main_claims = 0;
+	mainloop_ctx_id = 0;
 	gen_stream(1 + sim_choose(6));
 	sim_evs("stream", stream);
 	int strat = sim_choose(SIMRT_NSTRAT);
@@ -799,6 +909,7 @@ static void run(void)
 	sim_seg();	/* the schedule */
 	if (mode == M_IRQ) {
 		sim_probe(P_PATH_PUTCHAR_IRQ);
+		want_finale = sim_choose(2);
 		simrt_mode(SIMRT_IRQ);
 		simrt_irq_handler(irq_handler, 1);
 		/* enough interrupts to deliver the stream; gaps from back-to-back to far apart */
